@@ -94,7 +94,8 @@ pub enum FpMode {
 pub enum Body {
     Success,
     Error(u16),
-    /// 401 challenge: algs 0 none, 1 [MD5,SHA256], 2 [SHA256], 3 [MD5], 4 only unsupported, 5 [SHA256,MD5];
+    /// 401 challenge: algs 0 none, 1 [MD5,SHA256], 2 [SHA256], 3 [MD5], 4 only unsupported, 5 [SHA256,MD5], 6-7 with unknown
+    /// entries, 8-9 supported entries carrying parameters;
     /// cookie: nonce is a nonce cookie (bits follow algs/anon); plain nonce otherwise
     Lt401 {
         algs: u8,
@@ -172,7 +173,7 @@ pub fn nonce_text(sel: u8, cookie: bool, algs_bit: bool, anon_bit: bool) -> Stri
 
 pub fn alg_list(sel: u8) -> Option<Vec<RAlg>> {
     let a = |id: u16| RAlg { id, params: vec![] };
-    match sel % 8 {
+    match sel % 10 {
         0 => None,
         1 => Some(vec![a(1), a(2)]),
         2 => Some(vec![a(2)]),
@@ -181,7 +182,11 @@ pub fn alg_list(sel: u8) -> Option<Vec<RAlg>> {
         5 => Some(vec![a(2), a(1)]),
         // supported algorithms mixed with unknown entries that carry parameters (must be echoed byte for byte)
         6 => Some(vec![RAlg { id: 0x99, params: vec![1, 2, 3] }, a(2)]),
-        _ => Some(vec![a(1), RAlg { id: 0x1234, params: vec![0xAB] }, a(2), RAlg { id: 0, params: vec![9, 9] }]),
+        7 => Some(vec![a(1), RAlg { id: 0x1234, params: vec![0xAB] }, a(2), RAlg { id: 0, params: vec![9, 9] }]),
+        // supported algorithms whose entries carry parameters (unusual, legal): the chosen PASSWORD-ALGORITHM must be the
+        // offered entry, parameters included
+        8 => Some(vec![RAlg { id: 2, params: vec![1, 2, 3, 4] }]),
+        _ => Some(vec![RAlg { id: 1, params: vec![9] }, RAlg { id: 2, params: vec![7, 7] }]),
     }
 }
 
